@@ -45,4 +45,32 @@ mod verif_native_state {
         assert_eq!(state.round_count(FlowId(1)), 2, "the third round matches flow 1 but was not attributed to it");
         assert_eq!(state.round_flow_id(), FlowId(1));
     }
+
+    fn failed(ttl: u8, round: usize) -> ProbeStatus {
+        ProbeStatus::Failed(crate::probe::ProbeFailed {
+            sequence: Sequence(33000 + u16::from(ttl)),
+            identifier: TraceId(1),
+            src_port: Port(0),
+            dest_port: Port(0),
+            ttl: TimeToLive(ttl),
+            round: RoundId(round),
+            sent: SystemTime::now(),
+        })
+    }
+
+    //@witness kani k_round_flow_positions_2
+    /// C15 (D-C15b): a probe that failed to send still occupies its ttl position in the round's flow; the hop seen at
+    /// ttl 2 must not be recorded as the hop of ttl 1.
+    #[test]
+    fn w_c15_failed_probe_shifts_flow_positions() {
+        let mut state = State::new(StateConfig { max_samples: 10, max_flows: 4 });
+        let r0 = [failed(1, 0), complete(2, 0, [10, 0, 0, 2])];
+        let r1 = [complete(1, 1, [10, 0, 0, 1]), complete(2, 1, [10, 0, 0, 2])];
+        state.update_from_round(&Round::new(&r0, TimeToLive(2), CompletionReason::TargetFound));
+        state.update_from_round(&Round::new(&r1, TimeToLive(2), CompletionReason::TargetFound));
+        // the same path was seen twice (10.0.0.2 at ttl 2; ttl 1 unknown in the first round): one flow, both rounds in it
+        assert_eq!(state.flows().len(), 1, "the second round contradicts nothing seen in the first, yet a second flow was created");
+        assert_eq!(state.round_flow_id(), FlowId(1));
+        assert_eq!(state.round_count(FlowId(1)), 2);
+    }
 }
